@@ -204,9 +204,11 @@ func toBits(v any) ([]uint64, bool) {
 
 // Options limit how much is read.
 type Options struct {
-	SkipData bool     // do not call Read/ReadStrings/ReadCompound
-	Slices   bool     // also read two fixed partial selections per dataset (one column; every second element of the last dimension)
-	SelSeeds []uint64 // per seed one generated in-bounds selection per dataset, read through ReadHyperslab (and ReadSlice when it is a plain box)
+	SkipData bool // do not call Read/ReadStrings/ReadCompound
+	// MaxDataBytes: datasets whose logical extent (elements x element size) exceeds it are not read (0 = 256 MiB, < 0 = no limit)
+	MaxDataBytes int64
+	Slices       bool     // also read two fixed partial selections per dataset (one column; every second element of the last dimension)
+	SelSeeds     []uint64 // per seed one generated in-bounds selection per dataset, read through ReadHyperslab (and ReadSlice when it is a plain box)
 }
 
 func safe(f *File, what string, fn func()) {
@@ -435,7 +437,29 @@ func Read(path string, opt Options) *File {
 					d.Info = s
 				}
 			})
-			if !opt.SkipData {
+			tooBig := false
+			if lim := opt.MaxDataBytes; lim >= 0 {
+				if lim == 0 {
+					lim = 256 << 20
+				}
+				n := uint64(d.Size)
+				if n == 0 {
+					n = 1
+				}
+				for _, x := range d.Dims {
+					if x != 0 && n > uint64(lim)/x {
+						tooBig = true
+						break
+					}
+					n *= x
+				}
+				if tooBig {
+					// the library materialises the whole logical extent (C07's open finding): not something an observation of
+					// values should trigger on files whose extent is declared in the terabytes
+					d.ReadErr, d.StringsErr, d.CompoundErr = "skipped: logical extent above the observation limit", "skipped: logical extent above the observation limit", "skipped: logical extent above the observation limit"
+				}
+			}
+			if !opt.SkipData && !tooBig {
 				safe(f, p+" Read", func() {
 					v, err := o.Read()
 					if err != nil {
